@@ -39,6 +39,9 @@ struct LoopSpec {
     /// ghost text inserted right after the loop (R13 loops only; proof blocks only)
     #[serde(default)]
     after: String,
+    /// R13 folds: type annotation of the accumulator where rustc cannot infer it from the desugared form
+    #[serde(default)]
+    acc_ty: String,
 }
 
 #[derive(Deserialize, Default, Clone)]
@@ -139,6 +142,21 @@ enum Unit {
         what: String,
         file: String,
         name: String,
+    },
+    /// R15: the body of the k-th closure (source order) of a function that is out of reach as a whole, lifted into a
+    /// method `fn <sig> { <closure body verbatim> }` whose parameters are the closure's own parameters and the variables
+    /// it captures (signature text given by the plan); then treated like any extracted function (R2-R13, contracts)
+    #[serde(rename = "lifted")]
+    Lifted {
+        file: String,
+        self_ty: String,
+        func: String,
+        closure: usize,
+        /// `impl<'a> JoinOutput<'a>`
+        header: String,
+        /// text between `fn` and the body: `name<T>(&self, a: A) -> R`
+        sig: String,
+        spec: FnSpec,
     },
     /// R14: static dispatch resolved mechanically: the body `<self_ty as trait_>::method` runs -- the impl's own
     /// method if the impl block defines one, else the trait's provided (default) body -- emitted as a free function
@@ -481,6 +499,12 @@ impl<'a> Rw<'a> {
             if m.method == "iter" && m.args.is_empty() {
                 return self.try_plain_fold(mc, m, false);
             }
+            if m.method == "enumerate" && m.args.is_empty() {
+                if let syn::Expr::MethodCall(it) = &*m.receiver {
+                    return self.try_enum_fold(mc, it);
+                }
+                return false;
+            }
         }
         let map = match &*mc.receiver { syn::Expr::MethodCall(m) if m.method == "map" && m.args.len() == 1 => m, _ => return false };
         let en = match &*map.receiver { syn::Expr::MethodCall(m) if m.method == "enumerate" && m.args.is_empty() => m, _ => return false };
@@ -504,7 +528,7 @@ impl<'a> Rw<'a> {
         let dec = if ls.decreases.is_empty() { "__it.len() - __i".to_string() } else { ls.decreases.clone() };
         self.insert_open(xs, "{ let __it = ".to_string());
         self.replace_range(xe, c1s, "; let __f = ".to_string(), "R13-iter-chain");
-        self.replace_range(c1e, is_, "; let mut __acc = ".to_string(), "R13-iter-chain");
+        self.replace_range(c1e, is_, (if ls.acc_ty.is_empty() { "; let mut __acc = ".to_string() } else { format!("; let mut __acc: {} = ", ls.acc_ty) }), "R13-iter-chain");
         self.replace_range(ie, c2s, "; let __g = ".to_string(), "R13-iter-chain");
         self.replace_range(c2e, end, format!(
             "; let mut __i: usize = 0; while __i < __it.len(){} decreases {}, {{ {} __acc = __g(__acc, __f((__i, &__it[__i]))); __i += 1; }} {} __acc }}",
@@ -539,7 +563,7 @@ impl<'a> Rw<'a> {
             inv.push_str(&format!(" invariant {},", ls.invariant.join(", ")));
         }
         self.insert_open(xs, "{ let __it = ".to_string());
-        self.replace_range(xe, is_, "; let mut __acc = ".to_string(), "R13-fold");
+        self.replace_range(xe, is_, (if ls.acc_ty.is_empty() { "; let mut __acc = ".to_string() } else { format!("; let mut __acc: {} = ", ls.acc_ty) }), "R13-fold");
         self.replace_range(ie, gs, "; let __g = ".to_string(), "R13-fold");
         let text = if rev {
             let dec = if ls.decreases.is_empty() { "__i".to_string() } else { ls.decreases.clone() };
@@ -551,6 +575,39 @@ impl<'a> Rw<'a> {
                     inv, dec, ls.body_prologue, ls.after)
         };
         self.replace_range(ge, end, text, if rev { "R13-rev-fold" } else { "R13-fold" });
+        self.visit_expr(x);
+        self.visit_expr(&mc.args[0]);
+        self.visit_expr(&mc.args[1]);
+        true
+    }
+
+    /// R13: `X.iter().enumerate().fold(INIT, G)` -> `acc = INIT; for i in 0..X.len() { acc = G(acc, (i, &X[i])) }`; G verbatim
+    fn try_enum_fold(&mut self, mc: &syn::ExprMethodCall, it: &syn::ExprMethodCall) -> bool {
+        if it.method != "iter" || !it.args.is_empty() {
+            return false;
+        }
+        let k = self.iter_chain_idx;
+        let ls = match self.spec.iter_loops.get(&k.to_string()).cloned() {
+            Some(l) => l,
+            None => return false,
+        };
+        self.iter_chain_idx += 1;
+        let x = &*it.receiver;
+        let (xs, xe) = br(x.span());
+        let (is_, ie) = br(mc.args[0].span());
+        let (gs, ge) = br(mc.args[1].span());
+        let (_, end) = br(mc.span());
+        let mut inv = String::new();
+        if !ls.invariant.is_empty() {
+            inv.push_str(&format!(" invariant {},", ls.invariant.join(", ")));
+        }
+        let dec = if ls.decreases.is_empty() { "__it.len() - __i".to_string() } else { ls.decreases.clone() };
+        self.insert_open(xs, "{ let __it = ".to_string());
+        self.replace_range(xe, is_, (if ls.acc_ty.is_empty() { "; let mut __acc = ".to_string() } else { format!("; let mut __acc: {} = ", ls.acc_ty) }), "R13-enum-fold");
+        self.replace_range(ie, gs, "; let __g = ".to_string(), "R13-enum-fold");
+        self.replace_range(ge, end, format!(
+            "; let mut __i: usize = 0; while __i < __it.len(){} decreases {}, {{ {} __acc = __g(__acc, (__i, &__it[__i])); __i += 1; }} {} __acc }}",
+            inv, dec, ls.body_prologue, ls.after), "R13-enum-fold");
         self.visit_expr(x);
         self.visit_expr(&mc.args[0]);
         self.visit_expr(&mc.args[1]);
@@ -1011,6 +1068,32 @@ impl<'a, 'ast> Visit<'ast> for Rw<'a> {
                             }
                             head.push_str(&format!("{}: {}", name, cs.params[i]));
                         }
+                        syn::Pat::Tuple(t) if t.elems.iter().any(|e| matches!(e, syn::Pat::Reference(_))) => {
+                            // R5: `(a, &b)` -> `let a = p.0; let b = *p.1;` (reference patterns are not supported by Verus)
+                            let name = format!("__{}p{}", k, i);
+                            for (j, el) in t.elems.iter().enumerate() {
+                                let mut depth = 0;
+                                let mut cur = el;
+                                while let syn::Pat::Reference(r) = cur {
+                                    depth += 1;
+                                    cur = &*r.pat;
+                                }
+                                match cur {
+                                    syn::Pat::Ident(pi) if pi.subpat.is_none() && pi.by_ref.is_none() => {
+                                        prologue.push_str(&format!("let {}{} = {}{}.{}; ", if pi.mutability.is_some() { "mut " } else { "" }, pi.ident, "*".repeat(depth), name, j));
+                                    }
+                                    syn::Pat::Wild(_) => {}
+                                    _ => self.errors.push("R5: unsupported element in a tuple closure parameter with reference patterns".to_string()),
+                                }
+                            }
+                            self.log.push(Rewrite {
+                                rule: "R5-ref-pattern".to_string(),
+                                item: self.item.clone(),
+                                orig: self.text(inner.span()).to_string(),
+                                repl: format!("{}: _; field-wise lets with derefs", name),
+                            });
+                            head.push_str(&format!("{}: {}", name, cs.params[i]));
+                        }
                         syn::Pat::Tuple(_) | syn::Pat::Struct(_) | syn::Pat::TupleStruct(_) => {
                             let name = format!("__{}p{}", k, i);
                             prologue.push_str(&format!(
@@ -1086,7 +1169,38 @@ impl<'a, 'ast> Visit<'ast> for Rw<'a> {
         }
         let saved = self.in_tail_loop_depth;
         self.in_tail_loop_depth = 0;
-        self.visit_expr(&c.body);
+        let mut done = false;
+        if let syn::Expr::Loop(l) = &*c.body {
+            struct HasBreakVal(bool);
+            impl<'ast> Visit<'ast> for HasBreakVal {
+                fn visit_expr_break(&mut self, b: &'ast syn::ExprBreak) {
+                    if b.expr.is_some() {
+                        self.0 = true;
+                    }
+                }
+                fn visit_expr_closure(&mut self, _: &'ast syn::ExprClosure) {}
+            }
+            let mut h = HasBreakVal(false);
+            h.visit_block(&l.body);
+            if h.0 {
+                // R10 inside a closure whose whole body is the loop: `break V` leaves the closure with V
+                let k2 = self.loop_idx;
+                self.loop_idx += 1;
+                self.splice_loop(k2, br(l.body.span()).0);
+                self.in_tail_loop_depth = 1;
+                self.visit_block(&l.body);
+                self.log.push(Rewrite {
+                    rule: "R10-tail-loop".to_string(),
+                    item: self.item.clone(),
+                    orig: "closure body `loop { .. break V .. }`".to_string(),
+                    repl: "break V -> return V".to_string(),
+                });
+                done = true;
+            }
+        }
+        if !done {
+            self.visit_expr(&c.body);
+        }
         self.in_tail_loop_depth = saved;
     }
 
@@ -2869,6 +2983,87 @@ fn main() {
                     }
                 }
                 emit!("}\n".to_string(), "trait end".to_string(), "raw", String::new(), 0, 0);
+            }
+            Unit::Lifted {
+                file,
+                self_ty,
+                func,
+                closure,
+                header,
+                sig,
+                spec,
+            } => {
+                let (body_text, s_line, e_line) = {
+                    let src = load!(file);
+                    let mut items = Vec::new();
+                    collect_items(&src.file.items, &mut items);
+                    let mut found: Option<(usize, usize)> = None;
+                    for it in &items {
+                        if let syn::Item::Impl(im) = it {
+                            if im.trait_.is_some() || last_seg(&im.self_ty) != *self_ty || skip_by_cfg(&im.attrs) {
+                                continue;
+                            }
+                            for ii in &im.items {
+                                if let syn::ImplItem::Fn(f) = ii {
+                                    if f.sig.ident != func.as_str() || skip_by_cfg(&f.attrs) {
+                                        continue;
+                                    }
+                                    struct Find {
+                                        k: usize,
+                                        want: usize,
+                                        out: Option<(usize, usize)>,
+                                    }
+                                    impl<'ast> Visit<'ast> for Find {
+                                        fn visit_expr_closure(&mut self, c: &'ast syn::ExprClosure) {
+                                            if self.k == self.want {
+                                                self.out = Some(br(c.body.span()));
+                                            }
+                                            self.k += 1;
+                                            syn::visit::visit_expr_closure(self, c);
+                                        }
+                                    }
+                                    let mut fd = Find { k: 0, want: *closure, out: None };
+                                    fd.visit_block(&f.block);
+                                    found = fd.out;
+                                }
+                            }
+                        }
+                    }
+                    match found {
+                        Some((bs, be)) => (src.text[bs..be].to_string(), line_of(&src.text, bs), line_of(&src.text, be)),
+                        None => die(&mut log, &log_path, format!("lost anchor: closure {} of {}::{} in {}", closure, self_ty, func, file)),
+                    }
+                };
+                let synth_text = format!("{} {{\nfn {} {{\n{}\n}}\n}}\n", header, sig, body_text);
+                let parsed = match syn::parse_file(&synth_text) {
+                    Ok(f) => f,
+                    Err(e) => die(&mut log, &log_path, format!("R15: lifted closure {} of {}::{} does not parse as a function: {}", closure, self_ty, func, e)),
+                };
+                let synth = Src { path: file.clone(), text: synth_text, file: parsed };
+                let mut text_out = None;
+                if let Some(syn::Item::Impl(im)) = synth.file.items.first() {
+                    if let Some(syn::ImplItem::Fn(f)) = im.items.first() {
+                        let label = if spec.label.is_empty() { format!("{}::{}", self_ty, spec.name) } else { spec.label.clone() };
+                        match extract_fn(&synth, &f.attrs, br(f.sig.span()).0, &f.sig, &f.block, f.span(), spec, &label, false, &plan.optargs, &mut log) {
+                            Ok(fo) => text_out = Some((label, fo.text)),
+                            Err(es) => die(&mut log, &log_path, format!("{}: {}", label, es.join("; "))),
+                        }
+                    }
+                }
+                let (label, ftext) = match text_out {
+                    Some(x) => x,
+                    None => die(&mut log, &log_path, "R15: synthetic function not found".to_string()),
+                };
+                log.rewrites.push(Rewrite {
+                    rule: "R15-lifted-closure".into(),
+                    item: label.clone(),
+                    orig: format!("body of closure #{} of {}::{} ({}:{}-{})", closure, self_ty, func, file, s_line, e_line),
+                    repl: format!("fn {} {{ <that body, verbatim> }}; the rest of {} is dropped (not verified)", short(sig), func),
+                });
+                log.items.push(format!("fn {}::{} (closure #{} of {}::{})", file, label, closure, self_ty, func));
+                emit!(format!("{} {{\n", header), format!("impl header {}", header), "raw", String::new(), 0, 0);
+                emit!(ftext, label, if spec.mode == "assumed" { "assumed" } else { "fn" }, file.clone(), s_line, e_line);
+                emit!("}\n".to_string(), "impl end".to_string(), "raw", String::new(), 0, 0);
             }
             Unit::Resolved {
                 trait_file,
